@@ -535,6 +535,7 @@ fn gen_case(rng: &mut Rng, n: usize, tier: &str, scratch: &std::path::Path, out:
     let mut states_seen = std::collections::BTreeSet::new();
     let mut changes = 0usize;
     let mut last_syms = String::new();
+    let mut pool: Vec<(Vec<Syllable>, String)> = setup.usr.iter().chain(setup.sys.iter()).take(6).map(|e| (e.key.clone(), e.text.clone())).collect();
     for _ in 0..max_ops {
         let selecting = ed.is_selecting();
         let r = rng.below(100);
@@ -623,13 +624,20 @@ fn gen_case(rng: &mut Rng, n: usize, tier: &str, scratch: &std::path::Path, out:
             o[12] = k as u32;
             o[11] = (k == 2) as u32;
             ops.push(Op::Opts(o));
-        } else if r < 98 {
+        } else if r < 97 {
             ops.push(rng.pick(&[Op::Start, Op::Commit, Op::Clear, Op::Ack, Op::ClearSyl, Op::Cancel, Op::Select(0)]).clone());
         } else if r < 99 {
-            let len = 1 + rng.below(3) as usize;
-            let key: Vec<Syllable> = (0..len).map(|_| world.syls[rng.below(world.syls.len() as u64) as usize]).collect();
-            let text: String = (0..len).map(|_| cjk(rng)).collect();
-            ops.push(if rng.chance(3, 4) { Op::Learn(key, text) } else { Op::Unlearn(key, text) });
+            // learn / unlearn, often on a phrase used before (remove -> re-add, update of a removed phrase)
+            let (key, text) = if !pool.is_empty() && rng.chance(3, 5) {
+                pool[rng.below(pool.len() as u64) as usize].clone()
+            } else {
+                let len = 1 + rng.below(3) as usize;
+                let key: Vec<Syllable> = (0..len).map(|_| world.syls[rng.below(world.syls.len() as u64) as usize]).collect();
+                let text: String = (0..len).map(|_| cjk(rng)).collect();
+                pool.push((key.clone(), text.clone()));
+                (key, text)
+            };
+            ops.push(if rng.chance(3, 5) { Op::Learn(key, text) } else { Op::Unlearn(key, text) });
         } else {
             // inconsistent / arbitrary event
             ops.push(Op::Key {
@@ -761,11 +769,86 @@ fn run(case_file: &str, out_path: &str) -> i32 {
     0
 }
 
+/// C18: every printable ASCII character x both forms x both language modes x
+/// {empty buffer, every cursor position of a 3-symbol buffer}, on the Qwerty keyboard
+fn sweep_c18(out_path: &str) -> i32 {
+    let scratch = std::env::temp_dir().join(format!("vharness-ed-{}", std::process::id()));
+    std::fs::create_dir_all(&scratch).unwrap();
+    let f = std::fs::File::create(out_path).unwrap();
+    let mut w = std::io::BufWriter::new(f);
+    let mut rng = Rng::new(7);
+    let (s1, k1) = random_syllable(&mut rng);
+    let setup = CaseSetup {
+        sys: vec![Entry { key: vec![s1], text: "中".to_string(), freq: 10, time: 0 }],
+        usr: vec![],
+        abbr: vec![],
+        symsel: vec![],
+        lifetime: 0,
+    };
+    let none = Modifiers::default();
+    let mut n = 0usize;
+    let mut ops_total = 0usize;
+    for ch in 32u8..127 {
+        for form in 0..2u32 {
+            for english in 0..2u32 {
+                for cursor in 0..5usize {
+                    // cursor 4 = empty buffer; 0..=3 = positions in a 3-symbol buffer
+                    let mut out = String::new();
+                    write_setup(n, &setup, &mut out);
+                    n += 1;
+                    let mut ed = build_editor(&setup, &scratch);
+                    let mut ops: Vec<Op> = vec![];
+                    if cursor < 4 {
+                        for _ in 0..3 {
+                            for k in &k1 {
+                                ops.push(key_op(*k, none));
+                            }
+                        }
+                        ops.push(key_op(Home, none));
+                        for _ in 0..cursor {
+                            ops.push(key_op(Right, none));
+                        }
+                    }
+                    let mut o = opts_vec(&ed.editor_options());
+                    o[8] = english;
+                    o[9] = form;
+                    ops.push(Op::Opts(o));
+                    let ev = Qwerty.map_ascii(ch);
+                    ops.push(Op::Key {
+                        idx_of: ev.code as u8,
+                        code: ev.code as u8,
+                        uni: ev.unicode as u32,
+                        shift: ev.modifiers.shift,
+                        ctrl: ev.modifiers.ctrl,
+                        caps: ev.modifiers.capslock,
+                        num: ev.modifiers.numlock,
+                    });
+                    // toggles afterwards: caps lock, shift-space
+                    ops.push(Op::Key { idx_of: 0, code: 0, uni: 0xfffd, shift: false, ctrl: false, caps: true, num: false });
+                    ops.push(key_op(Space, Modifiers { shift: true, ..none }));
+                    for op in ops {
+                        ops_total += 1;
+                        if !step(&mut ed, &op, &mut out) {
+                            break;
+                        }
+                    }
+                    w.write_all(out.as_bytes()).unwrap();
+                }
+            }
+        }
+    }
+    w.flush().unwrap();
+    let _ = std::fs::remove_dir_all(&scratch);
+    println!("{{\"cases\":{},\"ops\":{},\"nontrivial_cases\":{},\"exhaustive\":true}}", n, ops_total, n);
+    0
+}
+
 fn main() {
     let args: Vec<String> = std::env::args().skip(1).collect();
     let code = match args.first().map(|s| s.as_str()) {
         Some("gen") => generate(&args[1], &args[2]),
         Some("run") => run(&args[1], &args[2]),
+        Some("c18") => sweep_c18(&args[1]),
         _ => {
             eprintln!("usage: ed gen <tier> <out> | ed run <cases> <out>");
             2
